@@ -90,6 +90,8 @@ fn c15_vault() {
     let pa = mk(b"version-a", ca, fa, va);
     let rec = |p: &Scratchpad| Record { key: key.clone(), value: try_serialize_record(p, RecordKind::Scratchpad).unwrap().to_vec(), publisher: None, expires: None };
     let err_with_record = if split { 0 } else { choice(3) };
+    // (authentic?, counter, payload tag) of every version the reply carries
+    let mut all_versions: Vec<(bool, Counter, Vec<u8>)> = vec![(!fa && va, ca, b"version-a".to_vec())];
     let (reply, b_info) = if err_with_record == 1 {
         // too few holders answered; the error carries the one version they returned
         (Err(NetworkError::GetRecordError(GetRecordError::NotEnoughCopies { record: rec(&pa), expected: 3, got: 1 })), None)
@@ -101,6 +103,15 @@ fn c15_vault() {
         let mut result_map = std::collections::HashMap::new();
         result_map.insert(XorName::from_content(&rec(&pa).value), (rec(&pa), std::collections::HashSet::from([peer(1)])));
         result_map.insert(XorName::from_content(&rec(&pb).value), (rec(&pb), std::collections::HashSet::from([peer(2)])));
+        all_versions.push((!fb && vb, cb, b"version-b".to_vec()));
+        // thorough tier: a third version with its own unrelated counter
+        if std::env::var("C15_VERSIONS").ok().as_deref() == Some("3") {
+            let cc = Counter(SymU::fresh("counter_c"));
+            let (fc, vc) = (choice(2) == 1, choice(2) == 1);
+            let pc = mk(b"version-c", cc, fc, vc);
+            result_map.insert(XorName::from_content(&rec(&pc).value), (rec(&pc), std::collections::HashSet::from([peer(3)])));
+            all_versions.push((!fc && vc, cc, b"version-c".to_vec()));
+        }
         (Err(NetworkError::GetRecordError(GetRecordError::SplitRecord { result_map })), Some((fb, vb)))
     } else {
         (Ok(rec(&pa)), None)
@@ -118,9 +129,20 @@ fn c15_vault() {
                 check_bool("vault:returned_pad_is_owned_and_validly_signed[received_pads_never_validated]", false);
             } else {
                 check_bool("vault:returned_pad_is_owned_and_validly_signed", true);
+                // general form (any number of versions): the returned pad is one of the authentic versions received,
+                // and no authentic version received has a higher counter
+                let payload = pad_access::payload_of(&pad);
+                check_bool("vault:returned_pad_is_one_of_the_authentic_versions_received", all_versions.iter().any(|(ok, _, tag)| *ok && *tag == payload));
+                for (ok, ct, _) in &all_versions {
+                    if *ok {
+                        check("vault:no_authentic_version_with_a_higher_counter", ct.0.sle(pad.count().0).0);
+                    }
+                }
                 // highest valid counter among those received
                 let is_b = pad_access::payload_of(&pad) == b"version-b".to_vec();
-                if a_ok && b_ok {
+                if all_versions.len() > 2 {
+                    cover("three_versions");
+                } else if a_ok && b_ok {
                     if equal {
                         cover("equal_counters");
                     } else {
@@ -137,7 +159,7 @@ fn c15_vault() {
             cover("error");
             if err_with_record != 0 {
                 cover("error_reply_with_record_refused");
-            } else if a_ok || b_ok {
+            } else if all_versions.iter().any(|(ok, _, _)| *ok) {
                 check_bool("vault:authentic_version_available_but_read_failed", false);
             }
         }
